@@ -129,6 +129,28 @@ func TestVerifC12Gate(t *testing.T) {
 	}
 	for round := 0; round < rounds; round++ {
 		host := fmt.Sprintf("h%d.gate.c12.example", round)
+		// no interleaving at all: a host cached as listed, then a refresh to another version of the
+		// list -- shorter, empty of hosts (comments only), or without that host -- then the same host again
+		for k, v2 := range []string{"other.c12.example\n", "# nothing is listed any more\n", "# c\n\n", "x" + host + "\n"} {
+			mu.Lock()
+			text = "other.c12.example\n" + host + "\n"
+			mu.Unlock()
+			f := c12GNew(t, u, dir, fmt.Sprintf("s%d_%d", round, k))
+			_ = ask(f, host)
+			mu.Lock()
+			text = v2
+			mu.Unlock()
+			ctx, cancel := context.WithTimeout(context.Background(), 10*time.Second)
+			rerr := f.Refresh(ctx)
+			cancel()
+			if rerr != nil {
+				t.Fatalf("refresh: %v", rerr)
+			}
+			late := ask(f, host)
+			want := ask(c12GNew(t, u, dir, fmt.Sprintf("t%d_%d", round, k)), host)
+			out.Emit(c12GEvent{Ev: "Gate", What: fmt.Sprintf("hashprefix: cached host, then refresh to %q (sequential)", v2),
+				Q: map[string]string{"host": host}, Cached: c12GAbs(late), Plain: c12GAbs(want)})
+		}
 		for _, dirn := range []string{"removed", "added"} {
 			with, without := "other.c12.example\n"+host+"\n", "other.c12.example\n"
 			v1, v2 := with, without
